@@ -81,6 +81,9 @@ example :
 -- BEGIN transcription pins (written by tools/mkpins.py)
 /-- T1, transcription pins: the control structure and calls (extract/skeleton.go) of the functions whose models
     were written by hand are the ones the models were transcribed from:
+      cmd/templ/lspcmd/proxy/server.go Server.DidChange
+      cmd/templ/lspcmd/proxy/server.go Server.DidOpen
+      cmd/templ/lspcmd/proxy/server.go Server.parseTemplate
       generator/rangewriter.go RangeWriter.CodeHash
       generator/rangewriter.go RangeWriter.Write
       generator/rangewriter.go RangeWriter.WriteIndent
@@ -97,6 +100,9 @@ example :
     A change of what one of them calls or how it branches breaks this theorem; the check then searches for a
     failing input and reports either that or `no-failing-input-found`. -/
 theorem C07_transcription_pinned :
+    Generated.skel_lspserver_DidChange = 12365285492961413979 ∧
+    Generated.skel_lspserver_DidOpen = 2912707743840414254 ∧
+    Generated.skel_lspserver_parseTemplate = 5362504280397451201 ∧
     Generated.skel_rw_CodeHash = 792772746908027308 ∧
     Generated.skel_rw_Write = 17538734659151182601 ∧
     Generated.skel_rw_WriteIndent = 17214375874521016690 ∧
